@@ -1,0 +1,23 @@
+//go:build verif
+
+package renderer
+
+import "github.com/golang/geo/r2"
+
+// Verification hooks (build tag verif only): expose the unexported line
+// simplification implementations so that an external monitor can compare them.
+
+// VerifDouglasPeucker is the iterative, explicit-stack implementation.
+func VerifDouglasPeucker(points []r2.Point, epsilon float64) []r2.Point {
+	return douglasPeuckerSimplify(points, epsilon)
+}
+
+// VerifReferenceDouglasPeucker is the recursive reference implementation.
+func VerifReferenceDouglasPeucker(points []r2.Point, epsilon float64) []r2.Point {
+	return referenceDouglasPeuckerSimplify(points, epsilon)
+}
+
+// VerifDistance is the point-to-line distance both implementations use.
+func VerifDistance(a r2.Point, b r2.Point, p r2.Point) float64 {
+	return distance(a, b, p)
+}
